@@ -114,7 +114,10 @@ CHECKS['C01'] = dict(
     text=('Proved for all inputs: the outside estimate invariant (best remaining tag and head scores incl. the own head), the inside bound, and MONOTONE: every item pushed '
           'while processing a popped item has priority <= the popped priority (leaf, unary, both binary sites, goal); with top() a maximum this gives non-increasing popped '
           'priorities - the observable clause of C01. Optimality itself rests on the A* meta-theorem (assumed, named) and is checked BOUNDED against an exhaustive oracle '
-          'on the real code with the pop hook. The premise that both shipped grammars share one head direction is a head-direction obligation on every rule function of en.py and ja.py (PyVC).'),
+          'on the real code with the pop hook. The premise that both shipped grammars share one head direction is a head-direction obligation on every rule function of en.py and ja.py (PyVC). '
+          'Completeness of one search iteration (the premise of the meta-theorem that every licensed combination reaches the agenda): goal-complete, chart-complete, expand-root, '
+          'expand-sites (unary results; cells starting at the end / ending at the start of the inserted item x their items x the rule results of the ordered pair; no break), '
+          'expand-once (exactly one push per rule result) - proved per path of an arbitrary iteration.'),
     design_ref='DESIGN.md section 4, C01', note=TB_CXX + '; A* meta-theorem assumed; optimality clause bounded',
     technique='contract-based deductive verification: CxxVC invariant + monotonicity obligations + z3; bounded oracle for optimality',
 )
@@ -132,6 +135,7 @@ CHECKS['C10'] = dict(
     text=('Decided BOUNDED: run-time contract of the real parse_sentence (compiled from the working tree) against exhaustive enumeration of all derivations on seeded small '
           'cases: min(k, #derivations) parses, pairwise different, non-increasing, scores equal to the k largest. Deductive obligations (only final items reach the goal cell, '
           'only the goal site creates them; chart::update / chart::operator() / cell::emplace / contains / size proved against their contracts: in n-best mode every item is stored, as a field-by-field copy, in the cell of its span) '
+          'and the completeness obligations of a search iteration (every popped final item is filed in the goal cell once; each pair of adjacent items is combined exactly once, when the later one is popped: expand-sites / expand-once) '
           'are included but the k-best clause itself has no contract-level proof here, so the level is exploration, not proof.'),
     design_ref='DESIGN.md section 4, C10', note='bounded oracle; float tolerance 2e-4 relative',
     technique='bounded run-time contract against an exhaustive oracle (stand-in; k-best meta-theorem not proved), plus CxxVC obligations on the goal cell and the chart methods',
